@@ -290,3 +290,8 @@ CHECKS['C15']['text'] = CHECKS['C15']['text'] + (
     " Known finding F15 (known_findings.txt, replayed on every run, printed as KNOWN-FINDING): in floating point the clause 'lowest Ritz value = smallest "
     "reachable eigenvalue' fails when numiter exceeds the Krylov dimension and the map has norm >~ 10 (rounding noise passes the absolute breakdown test); "
     "proved in exact arithmetic (ritz_exact_full), demanded by the search whenever the breakdown was detected.")
+CHECKS['C10']['text'] = CHECKS['C10']['text'] + (
+    " Known finding F16: on a chain of ONE site both drivers have empty sweep loops and report the energy 0 without optimising (all theorems carry 2 <= L).")
+CHECKS['C18']['text'] = CHECKS['C18']['text'] + (
+    " Known finding F17 (replayed on every run): at CPython's default recursion limit the recursive DFS raises RecursionError on an augmenting path through "
+    ">= ~1000 U vertices (n = 1200 chain graph); termination is proved for the fuelled model, the interpreter's stack limit is outside it.")
